@@ -16,6 +16,11 @@ def plan(tier, seed):
     specs = [{'part': 'levels', 'b': b} for b in range(0, top + 1)]
     ladder = [(-1, 8), (0, 9), (1, 10), (2, 12), (7, 17), (19, 29)] if tier == 'quick' else \
         [(-1, 8), (-1, 9), (0, 9), (0, 10), (0, 11), (1, 10), (1, 11), (2, 12), (2, 13), (4, 14), (7, 17), (9, 20), (18, 29), (19, 29)]
+    import random as _r
+    _lr = _r.Random('ladder/%s' % seed)
+    for _ in range(2 if tier == 'quick' else 8):
+        rc_ = _lr.randint(0, 19)
+        ladder.append((rc_, min(29, rc_ + _lr.randint(6, 9 if tier == 'quick' else 10))))
     for rc, b in ladder:
         if (rc, b) == (0, 9):
             for f0 in range(12):
